@@ -433,7 +433,8 @@ def params_from_analysis(anal, rs, cs, aliases=(), nid=0, code=0):
         else:
             posnames.append([0])
     on = lambda x: [1, x] if x is not None else [0]
-    return [int(bool(anal.is_method)), cx, posnames, on(rs), on(cs), list(aliases), nid, code]
+    al = [[a, int(a == SELFNAME)] if isinstance(a, int) else list(a) for a in aliases]
+    return [int(bool(anal.is_method)), cx, posnames, on(rs), on(cs), al, nid, code]
 
 
 def run_name_converter(anal, rs, cs, fn_src, nid=0, code=0):
@@ -486,6 +487,17 @@ class EvalGen(Gen):
     def arg_expr(self, d, scope, ctx, want=None):
         """an argument expression, biased towards the types the leaves are registered for"""
         r = self.r.random()
+        if want == "int":
+            if r < 0.45:
+                return [0, [0, self.r.randrange(0, 4)]]
+            if r < 0.65:
+                return [1, [0, 12]]
+            if r < 0.75:
+                self.tag += 1
+                return [11, self.tag, [0, [0, self.r.randrange(0, 4)]]]
+            if r < 0.85:
+                return [3, self.r.randrange(2), [1, [0, 12]], [0, [0, self.r.randrange(0, 3)]]]
+            return self.expr(d - 1, scope, ctx)
         if want == "list" or (want is None and r < 0.2):
             return self.r.choice([[1, [0, 13]], [9, self.leaf(scope + [20]), [0, 20], [1, [0, 13]], []]])
         if want == "tuple" or (want is None and r < 0.3):
@@ -505,13 +517,13 @@ class EvalGen(Gen):
             args = [[1, self.r.choice([[1, [0, 13]], [12, [self.leaf(scope), self.leaf(scope)]]])]]
         else:
             n = 2 if shape < 0.8 else self.r.choice([0, 1, 3])
-            wants = self.r.choice([(None, None), ("int", "int"), ("int", "list"), ("list", "int"), ("tuple", "int"), ("int", "tuple")])
+            wants = self.r.choice([(None, None), ("int", "int"), ("int", "int"), ("int", "list"), ("list", "int"), ("tuple", "int"), ("int", "tuple"), ("list", "list"), ("tuple", "tuple")])
             for i in range(n):
                 args.append([0, self.arg_expr(d, scope, "arg", wants[i] if i < 2 else None)])
         r = self.r.random()
-        if r < 0.35:
-            kws.append([[1, 31], self.arg_expr(d, scope, "kwarg")])
-        elif r < 0.45:
+        if r < 0.25:
+            kws.append([[1, 31], self.arg_expr(d, scope, "kwarg", self.r.choice(["int", "int", "tuple", None]))])
+        elif r < 0.33:
             kws.append([[1, 32], self.arg_expr(d, scope, "kwarg", "list")])
             if self.r.random() < 0.5:
                 kws.append([[1, 31], self.arg_expr(d, scope, "kwarg")])
